@@ -185,7 +185,12 @@ def _set_walk(members, segs, value, top):
     if _inherit_provides(members, r0):
         return ("unspecified", "name provided by inherit")
     if len(explicit) > 1 or (explicit and family):
-        return ("unspecified", "explicit and attrpath definitions mixed")
+        # mixed family: a path that exists inside the explicit set is edited there; where a *new* member of such
+        # a family should go is not specified
+        if len(explicit) == 1 and n > 1 and explicit[0][2][0] == "set" and _exists_in(explicit[0][2][2], segs[1:]):
+            family = []
+        else:
+            return ("unspecified", "explicit and attrpath definitions mixed")
     if n == 1:
         if family:
             return ("reject", "ValueError", "attrpath root overwrite")
@@ -226,6 +231,21 @@ def _set_walk(members, segs, value, top):
     return ("ok", "insert", {"segs": (r0,), "created": n - 1})
 
 
+def _exists_in(members, segs) -> bool:
+    """Does the path exist through explicit single-segment bindings only (and exactly once per level)?"""
+    cur = members
+    for k, seg in enumerate(segs):
+        hits = [m for m in cur if m[0] == "b" and m[1] == [seg]]
+        if len(hits) != 1 or any(m[0] == "b" and len(m[1]) > 1 and m[1][0] == seg for m in cur):
+            return False
+        if k == len(segs) - 1:
+            return True
+        if hits[0][2][0] != "set":
+            return False
+        cur = hits[0][2][2]
+    return False
+
+
 def rm_in_members(members, segs):
     if _has_dynamic(members):
         return ("unspecified", "dynamic attribute names")
@@ -240,8 +260,13 @@ def _rm_walk(members, segs, top):
         return ("unspecified", "path defined twice")
     family = [m for m in members if m[0] == "b" and len(m[1]) > 1 and m[1][0] == r0]
     explicit = [m for m in members if m[0] == "b" and m[1] == [r0]]
-    if explicit and family:
-        return ("unspecified", "explicit and attrpath definitions mixed")
+    if explicit and family and not (exact and n > 1 and top):
+        # (removing one attrpath-spelled member of a mixed family is plain: exactly that binding goes; so is a
+        # path that exists inside the explicit set)
+        if len(explicit) == 1 and n > 1 and explicit[0][2][0] == "set" and _exists_in(explicit[0][2][2], segs[1:]):
+            family = []
+        else:
+            return ("unspecified", "explicit and attrpath definitions mixed")
     if exact:
         m = exact[0]
         if n > 1 and not top:
